@@ -5,8 +5,9 @@
    The logic of a decision is a FEEL expression evaluated by that evaluator, so the two must agree.
 
    translation   C04 expr -> C01 expr (tr_e), C04 value -> C01 value (tr_v), C04 env -> C01 scope stack (tr_env)
-     numbers     z |-> of_Z z 0 (sign, coefficient |z|, exponent 0); EAdd / EMul |-> EBin Add / Mul
-     strings     the code s |-> the one-code-point string [s]
+     numbers     the same decimal128 datum (both models use coq/Base/Dec.v and the rounded + * of coq/Base/DecRound.v);
+                 EAdd / EMul |-> EBin Add / Mul
+     strings     the same list of code points
      names       the same numbers
      f(a, b)     ECall (EName f) [a; b]; the function value VBkm params body |-> VFun [(p, Any) ..] (tr_e body)
                  (business_knowledge_model.rs gives a formal parameter without typeRef the type Any)
@@ -23,11 +24,10 @@
    hypotheses, all decided by ONE evaluable function cev (the tiny evaluator again, answering None when the
    evaluation leaves the shared fragment):
      - fuel: teval has 60 levels (out of fuel = null there, VPoison in C01)
-     - every sum and product has at most 34 digits (C01's + and * round to decimal128; C04's integers do not)
-     - no string + string (C01 concatenates as the real code does, C04's vadd gives null: see str_concat_differs)
-     - formal parameters pairwise distinct (bind_pos lets the first of two equal names win, mk_args and the real code the
-       last: see dup_params_differ)
-   conclusion: equal up to the sign of zero (zsign): -3 * 0 is -0 in decimal128 and in the real code, and 0 in Z. *)
+     - no boxed invocation, no relation, no call of a decision-service function value is evaluated
+   Nothing else: sums and products of any size (both round to decimal128, overflow = null), string + string
+   (concatenation on both sides), repeated formal parameter names (the last argument wins on both sides) are covered.
+   conclusion: EQUAL values (the sign of a zero included: -3 * 0 is -0 on both sides, as in the real code). *)
 From Coq Require Import List NArith ZArith Bool Arith Lia.
 From DV Require Base.Dec Base.DecRound.
 From DV Require C16.Model.
@@ -39,6 +39,7 @@ Module F := DV.C01.Syntax.
 Module FS := DV.C01.Spec.
 Module FI := DV.C01.Impl.
 Module D := DV.Base.Dec.
+Module DR := DV.Base.DecRound.
 Module T := DV.C16.Model.
 
 (* ================= the translation ================= *)
@@ -49,8 +50,8 @@ Definition any_params (ps : list N) : list (N * T.ftype) := map (fun p => (p, T.
 Fixpoint tr_e (e : expr) : F.expr :=
   match e with
   | ENull => F.ENull
-  | ENum z => F.ENum (D.of_Z z 0)
-  | EStr s => F.EStr [s]
+  | ENum d => F.ENum d
+  | EStr s => F.EStr s
   | EVar n => F.EName n
   | EAdd a b => F.EBin F.Add (tr_e a) (tr_e b)
   | EMul a b => F.EBin F.Mul (tr_e a) (tr_e b)
@@ -63,8 +64,8 @@ Fixpoint tr_e (e : expr) : F.expr :=
 Fixpoint tr_v (v : value) : F.value :=
   match v with
   | VNull => F.VNull
-  | VNum z => F.VNum (D.of_Z z 0)
-  | VStr s => F.VStr [s]
+  | VNum d => F.VNum d
+  | VStr s => F.VStr s
   | VList vs => F.VList (map tr_v vs)
   | VCtx es => F.VCtx (fold_right (fun kv acc => F.ctx_set (fst kv) (tr_v (snd kv)) acc) [] es)
   | VBkm ps b => F.VFun (any_params ps) (tr_e b)
@@ -74,25 +75,7 @@ Fixpoint tr_v (v : value) : F.value :=
 Definition tr_ctx (es : env) : F.ctx := fold_right (fun kv acc => F.ctx_set (fst kv) (tr_v (snd kv)) acc) [] es.
 Definition tr_env (sc : env) : F.stack := [tr_ctx sc].
 
-(* equality up to the sign of zero: the coefficient 0 gets the sign + *)
-Definition dnorm (d : D.dec) : D.dec := if (D.coef d =? 0)%N then D.mkdec false 0 (D.expo d) else d.
-Fixpoint zsign (w : F.value) : F.value :=
-  match w with
-  | F.VNum d => F.VNum (dnorm d)
-  | F.VList l => F.VList (map zsign l)
-  | F.VCtx c => F.VCtx (map (fun kv => (fst kv, zsign (snd kv))) c)
-  | other => other
-  end.
-
 (* ================= the shared fragment, decided by evaluation ================= *)
-Definition fits (z : Z) : bool := (Z.abs z <? 10 ^ 34)%Z.
-Definition add_ok (x y : value) : bool :=
-  match x, y with VNum a, VNum b => fits (a + b) | VStr _, VStr _ => false | _, _ => true end.
-Definition mul_ok (x y : value) : bool :=
-  match x, y with VNum a, VNum b => fits (a * b) | _, _ => true end.
-
-Fixpoint nodupb (l : list N) : bool := match l with [] => true | x :: r => negb (mem x r) && nodupb r end.
-
 Section CevStep.
 Variable ev : env -> expr -> option value.
 Fixpoint cevs (sc : env) (l : list expr) : option (list value) :=
@@ -112,23 +95,17 @@ Fixpoint cev (f : nat) (sc : env) (e : expr) {struct f} : option value :=
   match f with O => None | S f' =>
   match e with
   | ENull => Some VNull
-  | ENum z => Some (VNum z)
+  | ENum d => Some (VNum d)
   | EStr s => Some (VStr s)
   | EVar n => Some (getv n sc)
-  | EAdd a b => match cev f' sc a, cev f' sc b with
-                | Some x, Some y => if add_ok x y then Some (vadd x y) else None
-                | _, _ => None end
-  | EMul a b => match cev f' sc a, cev f' sc b with
-                | Some x, Some y => if mul_ok x y then Some (vmul x y) else None
-                | _, _ => None end
+  | EAdd a b => match cev f' sc a, cev f' sc b with Some x, Some y => Some (vadd x y) | _, _ => None end
+  | EMul a b => match cev f' sc a, cev f' sc b with Some x, Some y => Some (vmul x y) | _, _ => None end
   | ECall fn args =>
       match cevs (cev f') sc args with
       | None => None
       | Some vs =>
           match getv fn sc with
-          | VBkm ps b => if nodupb ps then
-                           match bind_pos ps vs with Some pc => cev f' (zip sc pc) b | None => Some VNull end
-                         else None
+          | VBkm ps b => match bind_pos ps vs with Some pc => cev f' (zip sc pc) b | None => Some VNull end
           | VSvc _ _ => None
           | _ => Some VNull
           end
@@ -163,13 +140,13 @@ Proof.
   destruct e as [|z|s|n|a b|a b|fn args|fn binds|es res|cols rows]; cbn [cev] in H; cbn [tev tev_step];
     try (inversion H; reflexivity); try discriminate.
   - destruct (cev f sc a) as [x|] eqn:Ea; [|discriminate]. destruct (cev f sc b) as [y|] eqn:Eb; [|discriminate].
-    destruct (add_ok x y); [|discriminate]. inversion H; subst. rewrite (IH _ _ _ Ea), (IH _ _ _ Eb). reflexivity.
+    inversion H; subst. rewrite (IH _ _ _ Ea), (IH _ _ _ Eb). reflexivity.
   - destruct (cev f sc a) as [x|] eqn:Ea; [|discriminate]. destruct (cev f sc b) as [y|] eqn:Eb; [|discriminate].
-    destruct (mul_ok x y); [|discriminate]. inversion H; subst. rewrite (IH _ _ _ Ea), (IH _ _ _ Eb). reflexivity.
+    inversion H; subst. rewrite (IH _ _ _ Ea), (IH _ _ _ Eb). reflexivity.
   - destruct (cevs (cev f) sc args) as [vs|] eqn:Ea; [|discriminate].
     rewrite (cevs_evs f svc IH _ _ _ Ea).
-    destruct (getv fn sc) as [|z|s|l|c|ps b|sid ps]; try (inversion H; reflexivity).
-    destruct (nodupb ps); [|discriminate]. unfold apply_fn.
+    destruct (getv fn sc) as [|z|s|l|c|ps b|sid ps]; try (inversion H; reflexivity); try discriminate.
+    unfold apply_fn.
     destruct (bind_pos ps vs) as [pc|]; [|inversion H; reflexivity]. rewrite (IH _ _ _ H). reflexivity.
   - destruct (cctx (cev f) sc [] es) as [[acc sc1]|] eqn:Ec; [|discriminate].
     rewrite (cctx_go f svc IH _ _ _ _ _ Ec). destruct res as [r|].
@@ -181,7 +158,7 @@ Corollary shared_teval svc sc e v : cev TFUEL sc e = Some v -> teval svc sc e = 
 Proof. intros H. unfold teval. rewrite (cev_tev svc _ _ _ _ H). reflexivity. Qed.
 
 (* ================= sorted contexts ================= *)
-From DV Require C01.FreeNames C16.Proofs C02.Proofs C04.Proofs.
+From DV Require C01.FreeNames C16.Proofs C04.Proofs.
 Module P4 := DV.C04.Proofs.
 
 Ltac nb1 := match goal with
@@ -196,15 +173,6 @@ Proof. induction c as [|[k' x] r IH]; nb. rewrite IH. reflexivity. Qed.
 Lemma ctx_set_comm k1 k2 v1 v2 c : k1 <> k2 ->
   F.ctx_set k1 v1 (F.ctx_set k2 v2 c) = F.ctx_set k2 v2 (F.ctx_set k1 v1 c).
 Proof. intros Hne. induction c as [|[k' x] r IH]; nb. rewrite IH. reflexivity. Qed.
-
-Definition zf (kv : N * F.value) : N * F.value := (fst kv, zsign (snd kv)).
-Lemma zs_ctx_set k w c : map zf (F.ctx_set k w c) = F.ctx_set k (zsign w) (map zf c).
-Proof. induction c as [|[k' x] r IH]; cbn [F.ctx_set map zf fst snd]; [reflexivity|].
-  destruct (N.eqb k k'); [reflexivity|]. destruct (N.ltb k k'); [reflexivity|]. cbn [map]. rewrite IH. reflexivity. Qed.
-
-Lemma zs_ctx_get n c : F.ctx_get n (map zf c) = option_map zsign (F.ctx_get n c).
-Proof. induction c as [|[k' x] r IH]; cbn [F.ctx_get map zf fst snd option_map]; [reflexivity|].
-  destruct (N.eqb n k'); [reflexivity|exact IH]. Qed.
 
 Lemma tr_ctx_set k v acc : tr_ctx (set k v acc) = F.ctx_set k (tr_v v) (tr_ctx acc).
 Proof. induction acc as [|[k' x] r IH]; cbn [set]; [reflexivity|].
@@ -227,77 +195,16 @@ Lemma in_tr_ctx e es : In e (tr_ctx es) -> exists v, snd e = tr_v v.
 Proof. induction es as [|[k x] r IH]; [intros []|]. unfold tr_ctx in *. cbn [fold_right fst snd]. intros H.
   apply in_ctx_set in H. destruct H as [->|H]; [exists x; reflexivity | apply IH; exact H]. Qed.
 
-(* ================= numbers: exact while the result has at most 34 digits ================= *)
-Module DR := DV.Base.DecRound.
-Open Scope Z_scope.
+(* ================= + and *: the same operations on both sides ================= *)
+Lemma add_link x y : F.binop_eval F.Add (tr_v x) (tr_v y) = tr_v (vadd x y).
+Proof. destruct x, y; cbn [tr_v vadd F.binop_eval F.poisoned]; try reflexivity.
+  destruct (DR.dadd d d0); reflexivity. Qed.
 
-Definition numrel (z : Z) (d : D.dec) : Prop :=
-  D.coef d = Z.abs_N z /\ D.expo d = 0 /\ (z <> 0 -> D.neg d = (z <? 0)).
-
-Lemma dnorm_numrel z d : dnorm d = D.of_Z z 0 <-> numrel z d.
-Proof. unfold dnorm, numrel, D.of_Z. destruct d as [n c e]; cbn [D.coef D.expo D.neg]. split.
-  - destruct (N.eqb_spec c 0) as [->|Hc]; intros H; inversion H; subst.
-    + repeat split; lia.
-    + repeat split; reflexivity.
-  - intros [-> [-> Hs]]. destruct (N.eqb_spec (Z.abs_N z) 0) as [Hz|Hz].
-    + assert (z = 0) by lia. subst z. reflexivity.
-    + rewrite Hs by lia. reflexivity. Qed.
-
-Lemma sval_numrel z d : numrel z d -> D.sval d = z.
-Proof. intros [Hc [_ Hs]]. unfold D.sval. rewrite Hc. destruct (Z.eq_dec z 0) as [->|Hz]; [destruct (D.neg d); reflexivity|].
-  rewrite (Hs Hz). destruct (Z.ltb_spec z 0); lia. Qed.
-
-Lemma fits_N z : fits z = true -> (Z.abs_N z < 10 ^ D.PREC)%N.
-Proof. unfold fits, D.PREC. intros H. apply Z.ltb_lt in H. lia. Qed.
-
-Lemma dadd_small a b d1 d2 : numrel a d1 -> numrel b d2 -> fits (a + b) = true ->
-  exists d, DR.dadd d1 d2 = Some d /\ numrel (a + b) d.
-Proof. intros H1 H2 Hf. pose proof (sval_numrel _ _ H1) as S1. pose proof (sval_numrel _ _ H2) as S2.
-  destruct H1 as [_ [E1 _]], H2 as [_ [E2 _]].
-  unfold DR.dadd, DR.exact_add, D.emin2, D.scaled. rewrite E1, E2, S1, S2.
-  change (Z.min 0 0) with 0. rewrite Z.sub_diag, Z.pow_0_r, !Z.mul_1_r. unfold DR.round_Z.
-  rewrite DV.C02.Proofs.round34_exact; [|apply fits_N; exact Hf | unfold D.ETINY, D.ETOP; lia].
-  eexists. split; [reflexivity|]. unfold numrel. cbn [D.coef D.expo D.neg]. repeat split.
-  intros Hz. destruct (Z.eqb_spec (a + b) 0); [contradiction|reflexivity]. Qed.
-
-Lemma dmul_small a b d1 d2 : numrel a d1 -> numrel b d2 -> fits (a * b) = true ->
-  exists d, DR.dmul d1 d2 = Some d /\ numrel (a * b) d.
-Proof. intros [C1 [E1 N1]] [C2 [E2 N2]] Hf. unfold DR.dmul. rewrite C1, C2, E1, E2. change (0 + 0) with 0.
-  rewrite <- Zabs2N.inj_mul.
-  rewrite DV.C02.Proofs.round34_exact; [|apply fits_N; exact Hf | unfold D.ETINY, D.ETOP; lia].
-  eexists. split; [reflexivity|]. unfold numrel. cbn [D.coef D.expo D.neg]. repeat split.
-  intros Hz. rewrite N1, N2 by nia.
-  destruct (Z.ltb_spec a 0), (Z.ltb_spec b 0), (Z.ltb_spec (a * b) 0); try reflexivity; nia. Qed.
-
-Lemma zsign_num w z : zsign w = F.VNum (D.of_Z z 0) -> exists d, w = F.VNum d /\ numrel z d.
-Proof. destruct w; cbn [zsign]; try discriminate. intros H. inversion H as [H1]. exists d. split; [reflexivity|].
-  apply dnorm_numrel. exact H1. Qed.
-
-Lemma zsign_of_numrel z d : numrel z d -> zsign (F.VNum d) = F.VNum (D.of_Z z 0).
-Proof. intros H. cbn [zsign]. f_equal. apply dnorm_numrel. exact H. Qed.
-
-Lemma add_link wa wb x y : zsign wa = tr_v x -> zsign wb = tr_v y -> add_ok x y = true ->
-  zsign (F.binop_eval F.Add wa wb) = tr_v (vadd x y).
-Proof. intros Ha Hb Hok.
-  destruct x; cbn [tr_v] in Ha; destruct wa; cbn [zsign] in Ha; try discriminate Ha;
-  destruct y; cbn [tr_v] in Hb; destruct wb; cbn [zsign] in Hb; try discriminate Hb;
-  cbn [add_ok] in Hok; try discriminate Hok; try reflexivity.
-  inversion Ha as [Ha']. inversion Hb as [Hb']. apply dnorm_numrel in Ha'. apply dnorm_numrel in Hb'.
-  destruct (dadd_small _ _ _ _ Ha' Hb' Hok) as [r [Er Hr]].
-  cbn [F.binop_eval F.poisoned vadd tr_v]. rewrite Er. cbn [F.of_num]. apply zsign_of_numrel. exact Hr. Qed.
-
-Lemma mul_link wa wb x y : zsign wa = tr_v x -> zsign wb = tr_v y -> mul_ok x y = true ->
-  zsign (F.binop_eval F.Mul wa wb) = tr_v (vmul x y).
-Proof. intros Ha Hb Hok.
-  destruct x; cbn [tr_v] in Ha; destruct wa; cbn [zsign] in Ha; try discriminate Ha;
-  destruct y; cbn [tr_v] in Hb; destruct wb; cbn [zsign] in Hb; try discriminate Hb;
-  cbn [mul_ok] in Hok; try reflexivity.
-  inversion Ha as [Ha']. inversion Hb as [Hb']. apply dnorm_numrel in Ha'. apply dnorm_numrel in Hb'.
-  destruct (dmul_small _ _ _ _ Ha' Hb' Hok) as [r [Er Hr]].
-  cbn [F.binop_eval F.poisoned vmul tr_v]. rewrite Er. cbn [F.of_num]. apply zsign_of_numrel. exact Hr. Qed.
+Lemma mul_link x y : F.binop_eval F.Mul (tr_v x) (tr_v y) = tr_v (vmul x y).
+Proof. destruct x, y; cbn [tr_v vmul F.binop_eval F.poisoned]; try reflexivity.
+  destruct (DR.dmul d d0); reflexivity. Qed.
 
 (* ================= translated values hold no VPoison; coercion to Any keeps them ================= *)
-Close Scope Z_scope.
 Lemma vsize_pos w : 1 <= F.vsize w.
 Proof. destruct w; cbn [F.vsize]; lia. Qed.
 Lemma vsize_in_list u l : In u l -> F.vsize u <= fold_right (fun x n => F.vsize x + n) 0 l.
@@ -305,44 +212,32 @@ Proof. induction l as [|x l IH]; intros H; [destruct H|]. cbn [fold_right]. dest
 Lemma vsize_in_ctx (e : N * F.value) es : In e es -> F.vsize (snd e) <= fold_right (fun x n => F.vsize (snd x) + n) 0 es.
 Proof. induction es as [|x l IH]; intros H; [destruct H|]. cbn [fold_right]. destruct H as [->|H]; [lia|]. specialize (IH H). lia. Qed.
 
-Lemma map_eq_in {A B C} (g : A -> C) (h : B -> C) : forall l l', map g l = map h l' -> forall a, In a l -> exists b, g a = h b.
-Proof. induction l as [|x l IH]; intros l' H a Ha; [destruct Ha|]. destruct l' as [|y l']; [discriminate|]. cbn [map] in H.
-  inversion H as [[H1 H2]]. destruct Ha as [<-|Ha]; [exists y; exact H1 | exact (IH l' H2 a Ha)]. Qed.
-
-Lemma img_no_poison : forall f w v, F.vsize w <= f -> zsign w = tr_v v -> F.has_poison f w = false.
+Lemma img_no_poison : forall f w v, F.vsize w <= f -> w = tr_v v -> F.has_poison f w = false.
 Proof.
   induction f as [|f IH]; intros w v Hf Hz; [pose proof (vsize_pos w); lia|].
-  destruct w; cbn [F.has_poison]; try reflexivity; cbn [zsign] in Hz.
+  destruct w; cbn [F.has_poison]; try reflexivity.
   - destruct v; cbn [tr_v] in Hz; try discriminate Hz. inversion Hz as [Hm].
-    destruct (existsb (F.has_poison f) l) eqn:E; [|reflexivity]. apply existsb_exists in E. destruct E as [u [Hu Hp]].
-    destruct (map_eq_in _ _ _ _ Hm u Hu) as [v' Hv']. rewrite (IH u v') in Hp; [discriminate| |exact Hv'].
-    pose proof (vsize_in_list u l Hu). cbn [F.vsize] in Hf. lia.
-  - destruct v; cbn [tr_v] in Hz; try discriminate Hz. inversion Hz as [Hm].
-    destruct (existsb (fun e => F.has_poison f (snd e)) es) eqn:E; [|reflexivity]. apply existsb_exists in E. destruct E as [e [He Hp]].
-    assert (Hi : In (zf e) (tr_ctx es0)). { unfold tr_ctx. rewrite <- Hm. apply in_map. exact He. }
-    apply in_tr_ctx in Hi. destruct Hi as [v' Hv']. cbn [zf snd] in Hv'.
+    destruct (existsb (F.has_poison f) (map tr_v vs)) eqn:E; [|reflexivity]. apply existsb_exists in E. destruct E as [u [Hu Hp]].
+    assert (Hu' := Hu). apply in_map_iff in Hu'. destruct Hu' as [v' [Hv' _]].
+    rewrite (IH u v') in Hp; [discriminate| |symmetry; exact Hv'].
+    pose proof (vsize_in_list u _ Hu). subst l. cbn [F.vsize] in Hf. lia.
+  - destruct v; cbn [tr_v] in Hz; try discriminate Hz. inversion Hz as [Hm]. fold (tr_ctx es0) in *.
+    destruct (existsb (fun e => F.has_poison f (snd e)) (tr_ctx es0)) eqn:E; [|reflexivity]. apply existsb_exists in E. destruct E as [e [He Hp]].
+    destruct (in_tr_ctx e es0 He) as [v' Hv'].
     rewrite (IH (snd e) v') in Hp; [discriminate| |exact Hv'].
-    pose proof (vsize_in_ctx e es He). cbn [F.vsize] in Hf. lia.
+    pose proof (vsize_in_ctx e _ He). subst es. cbn [F.vsize] in Hf. lia.
   - destruct v; discriminate Hz.
   - destruct v; discriminate Hz.
   - destruct v; discriminate Hz.
 Qed.
 
-Lemma coerced_any w v : zsign w = tr_v v -> F.coerced1 (T.TS T.SAny) w = w.
-Proof. intros H. unfold F.coerced1. unfold F.poison. rewrite (img_no_poison _ w v (le_n _) H).
+Lemma coerced_any v : F.coerced1 (T.TS T.SAny) (tr_v v) = tr_v v.
+Proof. unfold F.coerced1. unfold F.poison. rewrite (img_no_poison _ (tr_v v) v (le_n _) eq_refl).
   change F.T.conformant with T.conformant. rewrite DV.C16.Proofs.conformant_any. reflexivity. Qed.
 
 (* ================= scopes: the flattened C04 scope against the C01 stack, name by name ================= *)
-Fixpoint zsign_tr_v (v : value) {struct v} : zsign (tr_v v) = tr_v v.
-Proof. destruct v as [|z|s|vs|es|ps b|sid ps]; cbn [tr_v zsign]; try reflexivity.
-  - f_equal. apply dnorm_numrel. unfold numrel, D.of_Z. cbn [D.coef D.expo D.neg]. repeat split.
-  - f_equal. rewrite map_map. induction vs as [|x vs IHl]; cbn [map]; [reflexivity|]. rewrite (zsign_tr_v x), IHl. reflexivity.
-  - f_equal. induction es as [|[k x] es IHl]; cbn [fold_right fst snd map]; [reflexivity|].
-    change (map (fun kv => (fst kv, zsign (snd kv)))) with (map zf) in *. rewrite zs_ctx_set, IHl, (zsign_tr_v x). reflexivity.
-Qed.
-
 Definition get1 (n : N) (S : F.stack) : F.value := match F.lookup n S with Some v => v | None => F.VNull end.
-Definition srel (sc : env) (S : F.stack) : Prop := forall n, zsign (get1 n S) = tr_v (getv n sc).
+Definition srel (sc : env) (S : F.stack) : Prop := forall n, get1 n S = tr_v (getv n sc).
 
 Lemma get1_cons n c S : get1 n (c :: S) = match F.ctx_get n c with Some w => w | None => get1 n S end.
 Proof. unfold get1. cbn [F.lookup]. destruct (F.ctx_get n c); reflexivity. Qed.
@@ -350,66 +245,40 @@ Proof. unfold get1. cbn [F.lookup]. destruct (F.ctx_get n c); reflexivity. Qed.
 Lemma srel_push sc S : srel sc S -> srel sc ([] :: S).
 Proof. intros H n. rewrite get1_cons. exact (H n). Qed.
 
-Lemma srel_set sc c S k v w : srel sc (c :: S) -> zsign w = tr_v v -> srel (set k v sc) (F.ctx_set k w c :: S).
+Lemma srel_set sc c S k v w : srel sc (c :: S) -> w = tr_v v -> srel (set k v sc) (F.ctx_set k w c :: S).
 Proof. intros H Hw n. rewrite get1_cons, DV.C01.FreeNames.ctx_get_set. unfold getv. rewrite P4.lookup_set.
   destruct (N.eqb n k); [exact Hw|]. specialize (H n). rewrite get1_cons in H. exact H. Qed.
 
 Lemma srel_env sc : srel sc (tr_env sc).
-Proof. intros n. unfold tr_env. rewrite get1_cons, ctx_get_tr. unfold getv. destruct (lookup n sc) as [v|]; cbn [option_map]; [apply zsign_tr_v | reflexivity]. Qed.
+Proof. intros n. unfold tr_env. rewrite get1_cons, ctx_get_tr. unfold getv. destruct (lookup n sc) as [v|]; reflexivity. Qed.
 
-(* ----- positional arguments ----- *)
-Lemma nodupb_NoDup l : nodupb l = true -> NoDup l.
-Proof. induction l as [|x r IH]; cbn [nodupb]; intros H; [constructor|]. apply andb_true_iff in H. destruct H as [H1 H2].
-  constructor; [|exact (IH H2)]. intro Hin. apply P4.In_mem in Hin. rewrite Hin in H1. discriminate. Qed.
+(* ----- positional arguments: both sides set the formal parameters one after the other (a repeated name: the last wins) ----- *)
+Lemma bind_go_len : forall ps vs acc,
+  match bind_pos_go ps vs acc with None => length vs < length ps | Some _ => length ps <= length vs end.
+Proof. induction ps as [|p pr IH]; intros vs acc; cbn [bind_pos_go length]; [lia|]. destruct vs as [|a ar]; cbn [length]; [lia|].
+  specialize (IH ar (set p a acc)). destruct (bind_pos_go pr ar (set p a acc)); lia. Qed.
 
-Lemma bind_pos_len : forall ps vs, match bind_pos ps vs with None => length vs < length ps | Some _ => length ps <= length vs end.
-Proof. induction ps as [|p pr IH]; intros vs; cbn [bind_pos length]; [lia|]. destruct vs as [|a ar]; cbn [length]; [lia|].
-  specialize (IH ar). destruct (bind_pos pr ar); cbn [option_map]; lia. Qed.
-
-Lemma bind_pos_keys : forall ps vs pc n, bind_pos ps vs = Some pc -> ~ In n ps -> lookup n pc = None.
-Proof. induction ps as [|p pr IH]; intros vs pc n H Hn; cbn [bind_pos] in H; [inversion H; reflexivity|].
-  destruct vs as [|a ar]; [discriminate|]. destruct (bind_pos pr ar) as [pc'|] eqn:E; cbn [option_map] in H; [|discriminate].
-  inversion H; subst. rewrite P4.lookup_set. destruct (N.eqb_spec n p) as [->|Hne]; [exfalso; apply Hn; left; reflexivity|].
-  apply (IH ar pc' n E). intro Hi. apply Hn. right. exact Hi. Qed.
-
-Lemma bind_pos_nodup : forall ps vs pc, bind_pos ps vs = Some pc -> NoDup (map fst pc).
-Proof. induction ps as [|p pr IH]; intros vs pc H; cbn [bind_pos] in H; [inversion H; constructor|].
-  destruct vs as [|a ar]; [discriminate|]. destruct (bind_pos pr ar) as [pc'|] eqn:E; cbn [option_map] in H; [|discriminate].
-  inversion H; subst. apply P4.nodup_set. exact (IH ar pc' E). Qed.
+Lemma bind_go_nodup : forall ps vs acc pc, bind_pos_go ps vs acc = Some pc -> NoDup (map fst acc) -> NoDup (map fst pc).
+Proof. induction ps as [|p pr IH]; intros vs acc pc H Ha; cbn [bind_pos_go] in H; [inversion H; subst; exact Ha|].
+  destruct vs as [|a ar]; [discriminate|]. apply (IH ar _ pc H). apply P4.nodup_set. exact Ha. Qed.
 
 Definition arg_step (c : F.ctx) (pv : N * T.ftype * F.value) : F.ctx :=
   F.ctx_set (fst (fst pv)) (F.coerced1 (snd (fst pv)) (snd pv)) c.
 
-Lemma args_rel : forall ps vs ws pc, NoDup ps -> bind_pos ps vs = Some pc -> map zsign ws = map tr_v vs ->
-  forall c0 n, match lookup n pc with
-               | Some v => exists w, F.ctx_get n (fold_left arg_step (combine (any_params ps) ws) c0) = Some w /\ zsign w = tr_v v
-               | None => F.ctx_get n (fold_left arg_step (combine (any_params ps) ws) c0) = F.ctx_get n c0
-               end.
-Proof.
-  induction ps as [|p pr IH]; intros vs ws pc Hnd Hb Hm c0 n; cbn [bind_pos] in Hb.
-  - inversion Hb; subst. reflexivity.
-  - destruct vs as [|a ar]; [discriminate|]. destruct (bind_pos pr ar) as [pc'|] eqn:E; cbn [option_map] in Hb; [|discriminate].
-    inversion Hb; subst. destruct ws as [|w wr]; [discriminate|]. cbn [map] in Hm. inversion Hm as [[Hw Hm']].
-    inversion Hnd as [|? ? Hp Hnd']; subst.
-    cbn [any_params map combine fold_left].
-    assert (Ea : arg_step c0 (p, T.TS T.SAny, w) = F.ctx_set p w c0)
-      by (unfold arg_step; cbn [fst snd]; rewrite (coerced_any w a Hw); reflexivity).
-    rewrite Ea.
-    specialize (IH ar wr pc' Hnd' E Hm' (F.ctx_set p w c0) n). fold (any_params pr).
-    rewrite P4.lookup_set. destruct (N.eqb_spec n p) as [->|Hne].
-    + rewrite (bind_pos_keys pr ar pc' p E Hp) in IH. rewrite IH, DV.C01.FreeNames.ctx_get_set, N.eqb_refl.
-      exists w. split; [reflexivity | exact Hw].
-    + destruct (lookup n pc') as [v|]; [exact IH|]. rewrite IH, DV.C01.FreeNames.ctx_get_set.
-      destruct (N.eqb_spec n p); [contradiction | reflexivity].
-Qed.
+Lemma bind_go_tr : forall ps vs acc pc, bind_pos_go ps vs acc = Some pc ->
+  fold_left arg_step (combine (any_params ps) (map tr_v vs)) (tr_ctx acc) = tr_ctx pc.
+Proof. induction ps as [|p pr IH]; intros vs acc pc H; cbn [bind_pos_go] in H.
+  - inversion H; subst. reflexivity.
+  - destruct vs as [|a ar]; [discriminate|]. cbn [any_params map combine fold_left]. fold (any_params pr).
+    unfold arg_step at 2. cbn [fst snd]. rewrite coerced_any, <- tr_ctx_set. exact (IH ar _ pc H). Qed.
 
-Lemma srel_call ps vs ws pc sc S c : NoDup ps -> bind_pos ps vs = Some pc -> map zsign ws = map tr_v vs -> srel sc S ->
-  FS.mk_args (any_params ps) ws = Some c -> srel (zip sc pc) (c :: S).
-Proof. intros Hnd Hb Hm Hs Hc n. unfold FS.mk_args in Hc. destruct (Nat.ltb _ _); [discriminate|]. inversion Hc as [Hc']. clear Hc.
-  fold arg_step. rewrite get1_cons. unfold getv. rewrite P4.lookup_zip, (P4.lookup_rev_nodup n pc (bind_pos_nodup _ _ _ Hb)).
-  pose proof (args_rel ps vs ws pc Hnd Hb Hm [] n) as H. destruct (lookup n pc) as [v|].
-  - destruct H as [w [-> Hw]]. exact Hw.
-  - rewrite H. cbn [F.ctx_get]. exact (Hs n).
+Lemma srel_call ps vs pc sc S c : bind_pos ps vs = Some pc -> srel sc S ->
+  FS.mk_args (any_params ps) (map tr_v vs) = Some c -> srel (zip sc pc) (c :: S).
+Proof. intros Hb Hs Hc n. unfold FS.mk_args in Hc. destruct (Nat.ltb _ _); [discriminate|]. inversion Hc as [Hc']. clear Hc.
+  fold arg_step. unfold bind_pos in Hb. change (@nil (N * F.value)) with (tr_ctx []). rewrite (bind_go_tr ps vs [] pc Hb).
+  rewrite get1_cons, ctx_get_tr. unfold getv.
+  rewrite P4.lookup_zip, (P4.lookup_rev_nodup n pc (bind_go_nodup _ _ _ _ Hb (NoDup_nil _))).
+  destruct (lookup n pc) as [v|]; cbn [option_map]; [reflexivity | exact (Hs n)].
 Qed.
 
 (* ================= the link ================= *)
@@ -438,26 +307,26 @@ Lemma eval_path g S e k : feval (Datatypes.S g) S (F.EPath e k) = F.path_eval (f
 Proof. reflexivity. Qed.
 
 Definition linked (f : nat) : Prop := forall sc e v, cev f sc e = Some v ->
-  forall g S, 2 * f <= g -> srel sc S -> zsign (feval g S (tr_e e)) = tr_v v.
+  forall g S, 2 * f <= g -> srel sc S -> feval g S (tr_e e) = tr_v v.
 
 Lemma args_link f (IH : linked f) sc S g : 2 * f <= g -> srel sc S ->
-  forall l vs, cevs (cev f) sc l = Some vs -> map zsign (map (feval g S) (map tr_e l)) = map tr_v vs.
+  forall l vs, cevs (cev f) sc l = Some vs -> map (feval g S) (map tr_e l) = map tr_v vs.
 Proof. intros Hg Hs. induction l as [|x r IHl]; intros vs H; cbn [cevs] in H.
   - inversion H; reflexivity.
   - destruct (cev f sc x) as [v|] eqn:E; [|discriminate]. destruct (cevs (cev f) sc r) as [vs'|] eqn:E2; [|discriminate].
     inversion H; subst. cbn [map]. rewrite (IH _ _ _ E g S Hg Hs), (IHl vs' eq_refl). reflexivity. Qed.
 
 Lemma ctx_link f (IH : linked f) S g : 2 * f <= g ->
-  forall es sc acc c acc1 sc1, cctx (cev f) sc acc es = Some (acc1, sc1) -> srel sc (c :: S) -> map zf c = tr_ctx acc ->
+  forall es sc acc c acc1 sc1, cctx (cev f) sc acc es = Some (acc1, sc1) -> srel sc (c :: S) -> c = tr_ctx acc ->
   srel sc1 (fold_left (ctx_step g S) (map (fun ke => (fst ke, tr_e (snd ke))) es) c :: S) /\
-  map zf (fold_left (ctx_step g S) (map (fun ke => (fst ke, tr_e (snd ke))) es) c) = tr_ctx acc1.
+  fold_left (ctx_step g S) (map (fun ke => (fst ke, tr_e (snd ke))) es) c = tr_ctx acc1.
 Proof. intros Hg. induction es as [|[k x] r IHl]; intros sc acc c acc1 sc1 H Hs Hc; cbn [cctx] in H.
-  - inversion H; subst. split; [exact Hs | exact Hc].
+  - inversion H; subst. split; [exact Hs | reflexivity].
   - destruct (cev f sc x) as [v|] eqn:E; [|discriminate]. cbn [map fold_left fst snd]. unfold ctx_step at 2 4. cbn [fst snd].
     pose proof (IH _ _ _ E g (c :: S) Hg Hs) as Hv.
     apply (IHl _ _ _ _ _ H).
     + apply srel_set; [exact Hs | exact Hv].
-    + rewrite zs_ctx_set, tr_ctx_set, Hc, Hv. reflexivity. Qed.
+    + rewrite Hv, tr_ctx_set, Hc. reflexivity. Qed.
 
 Theorem link : forall f, linked f.
 Proof.
@@ -465,31 +334,24 @@ Proof.
   destruct g as [|[|g]]; try lia. assert (Hg1 : 2 * f <= Datatypes.S g) by lia. assert (Hg0 : 2 * f <= g) by lia.
   destruct e as [|z|s|n|a b|a b|fn args|fn binds|es res|cols rows]; cbn [cev] in H; try discriminate H.
   - inversion H; reflexivity.
-  - inversion H; subst. exact (zsign_tr_v (VNum z)).
+  - inversion H; reflexivity.
   - inversion H; reflexivity.
   - inversion H; subst. exact (Hs n).
   - destruct (cev f sc a) as [x|] eqn:Ea; [|discriminate]. destruct (cev f sc b) as [y|] eqn:Eb; [|discriminate].
-    destruct (add_ok x y) eqn:Eo; [|discriminate]. inversion H; subst. cbn [tr_e]. rewrite eval_bin.
-    apply add_link; [exact (IH _ _ _ Ea _ S Hg1 Hs) | exact (IH _ _ _ Eb _ S Hg1 Hs) | exact Eo].
+    inversion H; subst. cbn [tr_e]. rewrite eval_bin, (IH _ _ _ Ea _ S Hg1 Hs), (IH _ _ _ Eb _ S Hg1 Hs). apply add_link.
   - destruct (cev f sc a) as [x|] eqn:Ea; [|discriminate]. destruct (cev f sc b) as [y|] eqn:Eb; [|discriminate].
-    destruct (mul_ok x y) eqn:Eo; [|discriminate]. inversion H; subst. cbn [tr_e]. rewrite eval_bin.
-    apply mul_link; [exact (IH _ _ _ Ea _ S Hg1 Hs) | exact (IH _ _ _ Eb _ S Hg1 Hs) | exact Eo].
+    inversion H; subst. cbn [tr_e]. rewrite eval_bin, (IH _ _ _ Ea _ S Hg1 Hs), (IH _ _ _ Eb _ S Hg1 Hs). apply mul_link.
   - destruct (cevs (cev f) sc args) as [vs|] eqn:Ea; [|discriminate]. cbn [tr_e]. rewrite eval_call.
-    pose proof (args_link f IH sc S _ Hg1 Hs args vs Ea) as Hm.
-    pose proof (Hs fn) as Hfn.
-    destruct (getv fn sc) as [|z|s|l|c|ps b|sid ps]; cbn [tr_v] in Hfn;
-      destruct (get1 fn S); cbn [zsign] in Hfn; try discriminate Hfn; try (inversion H; reflexivity).
-    inversion Hfn; subst. destruct (nodupb ps) eqn:End; [|discriminate]. apply nodupb_NoDup in End.
-    assert (Hl : length (map (feval (Datatypes.S g) S) (map tr_e args)) = length vs).
-    { rewrite <- (map_length zsign), Hm, map_length. reflexivity. }
-    pose proof (bind_pos_len ps vs) as Hb.
-    destruct (FS.mk_args (any_params ps) (map (feval (Datatypes.S g) S) (map tr_e args))) as [c|] eqn:Em.
+    rewrite (args_link f IH sc S _ Hg1 Hs args vs Ea), (Hs fn).
+    destruct (getv fn sc) as [|z|s|l|c|ps b|sid ps]; cbn [tr_v]; try (inversion H; reflexivity); try discriminate H.
+    pose proof (bind_go_len ps vs []) as Hb. fold (bind_pos ps vs) in Hb.
+    destruct (FS.mk_args (any_params ps) (map tr_v vs)) as [c|] eqn:Em.
     + destruct (bind_pos ps vs) as [pc|] eqn:Ebp.
-      * apply (IH _ _ _ H); [exact Hg1|]. exact (srel_call ps vs _ pc sc S c End Ebp Hm Hs Em).
-      * exfalso. unfold FS.mk_args in Em. rewrite Hl in Em. unfold any_params in Em. rewrite map_length in Em.
+      * apply (IH _ _ _ H); [exact Hg1|]. exact (srel_call ps vs pc sc S c Ebp Hs Em).
+      * exfalso. unfold FS.mk_args in Em. unfold any_params in Em. rewrite !map_length in Em.
         destruct (Nat.ltb_spec (length vs) (length ps)); [discriminate | lia].
     + destruct (bind_pos ps vs) as [pc|] eqn:Ebp; [|inversion H; reflexivity].
-      exfalso. unfold FS.mk_args in Em. rewrite Hl in Em. unfold any_params in Em. rewrite map_length in Em.
+      exfalso. unfold FS.mk_args in Em. unfold any_params in Em. rewrite !map_length in Em.
       destruct (Nat.ltb_spec (length vs) (length ps)); [lia | discriminate].
   - destruct (cctx (cev f) sc [] es) as [[acc sc1]|] eqn:Ec; [|discriminate].
     destruct res as [r|]; cbn [tr_e].
@@ -499,7 +361,7 @@ Proof.
       exact (IH _ _ _ H g _ Hg0 Hs1).
     + inversion H; subst. rewrite eval_ctx.
       destruct (ctx_link f IH S (Datatypes.S g) Hg1 es sc [] [] acc sc1 Ec (srel_push _ _ Hs) eq_refl) as [_ Hc1].
-      cbn [zsign tr_v]. f_equal. exact Hc1.
+      cbn [tr_v]. f_equal. exact Hc1.
 Qed.
 End Link.
 
@@ -508,14 +370,14 @@ From DV Require C01.Proofs.
 
 (* every fuel of the tiny evaluator, every enumeration function of C01's eval, every related scope / stack pair *)
 Theorem tev_is_feel_eval cartf svc f sc S e g : shared f sc e = true -> 2 * f <= g -> srel sc S ->
-  zsign (FS.eval cartf g S (tr_e e)) = tr_v (fst (tev false f svc sc e)).
+  FS.eval cartf g S (tr_e e) = tr_v (fst (tev false f svc sc e)).
 Proof. unfold shared. destruct (cev f sc e) as [v|] eqn:E; [|discriminate]. intros _ Hg Hs.
   rewrite (cev_tev svc _ _ _ _ E). exact (link cartf f sc e v E g S Hg Hs). Qed.
 
 (* teval (60 levels) against the Spec and against the scope-stack machine of C01, on the translated environment *)
 Theorem teval_is_feel_eval : forall svc sc e fuel, shared TFUEL sc e = true -> 2 * TFUEL <= fuel ->
-  zsign (FS.eval_spec fuel (tr_env sc) (tr_e e)) = tr_v (teval svc sc e) /\
-  zsign (fst (FI.run_impl fuel (tr_env sc) (tr_e e))) = tr_v (teval svc sc e) /\
+  FS.eval_spec fuel (tr_env sc) (tr_e e) = tr_v (teval svc sc e) /\
+  fst (FI.run_impl fuel (tr_env sc) (tr_e e)) = tr_v (teval svc sc e) /\
   snd (FI.run_impl fuel (tr_env sc) (tr_e e)) = tr_env sc.
 Proof. intros svc sc e fuel Hsh Hf. unfold FI.run_impl. rewrite DV.C01.Proofs.run_refines. cbn [fst snd]. unfold teval, FS.eval_spec.
   repeat split; apply tev_is_feel_eval; try assumption; apply srel_env. Qed.
@@ -523,43 +385,48 @@ Proof. intros svc sc e fuel Hsh Hf. unfold FI.run_impl. rewrite DV.C01.Proofs.ru
 (* non-vacuity: a boxed context with a result entry, an entry shadowing an outer name, a literal invocation whose body
    reads a name of the caller's scope (dynamic scoping), a negative factor *)
 Definition link_env : env :=
-  [(1%N, VBkm [10%N; 11%N] (EAdd (EMul (EVar 10%N) (EVar 11%N)) (EVar 2%N))); (2%N, VNum 7); (3%N, VStr 65%N)].
+  [(1%N, VBkm [10%N; 11%N] (EAdd (EMul (EVar 10%N) (EVar 11%N)) (EVar 2%N))); (2%N, vnum 7); (3%N, VStr [65%N])].
 Definition link_e : expr :=
-  ECtx [(2%N, ENum 3); (4%N, ECall 1%N [EAdd (ENum 2) (ENum 1); EVar 2%N]); (5%N, EVar 3%N)] (Some (EMul (EVar 4%N) (ENum (-2)))).
+  ECtx [(2%N, enum 3); (4%N, ECall 1%N [EAdd (enum 2) (enum 1); EVar 2%N]); (5%N, EVar 3%N)] (Some (EMul (EVar 4%N) (enum (-2)))).
 Definition no_svc : N -> env -> value := fun _ _ => VNull.
 
 Lemma link_nonvacuous :
   shared TFUEL link_env link_e = true /\
-  teval no_svc link_env link_e = VNum (-24) /\
+  teval no_svc link_env link_e = vnum (-24) /\
   FS.eval_spec 120 (tr_env link_env) (tr_e link_e) = F.VNum (D.of_Z (-24) 0) /\
   fst (FI.run_impl 120 (tr_env link_env) (tr_e link_e)) = F.VNum (D.of_Z (-24) 0) /\
-  shared TFUEL link_env (ECall 1%N [ENum 5]) = true /\ teval no_svc link_env (ECall 1%N [ENum 5]) = VNull /\   (* a missing argument: null on both sides *)
+  shared TFUEL link_env (ECall 1%N [enum 5]) = true /\ teval no_svc link_env (ECall 1%N [enum 5]) = VNull /\   (* a missing argument: null on both sides *)
   shared TFUEL link_env (EAdd (EVar 2%N) ENull) = true /\ teval no_svc link_env (EAdd (EVar 2%N) ENull) = VNull. (* null operand *)
 Proof. vm_compute. repeat split; reflexivity. Qed.
 
-(* ---------- the corners outside the hypotheses: the two models differ, the real code sides with C01 in each ---------- *)
+(* ---------- the former corners: the three places where the earlier Z-valued tiny evaluator differed from C01 and from the
+   real code (each run through dv model) are inside the hypotheses now, and the two models agree on them ---------- *)
 (* "a" + "b": dv model answers "ab" *)
-Lemma str_concat_differs :
-  teval no_svc [] (EAdd (EStr 97%N) (EStr 98%N)) = VNull /\
-  FS.eval_spec 5 (tr_env []) (tr_e (EAdd (EStr 97%N) (EStr 98%N))) = F.VStr [97%N; 98%N].
-Proof. vm_compute. split; reflexivity. Qed.
+Lemma str_concat_agrees :
+  let e := EAdd (EStr [97%N]) (EStr [98%N]) in
+  shared TFUEL [] e = true /\ teval no_svc [] e = VStr [97%N; 98%N] /\
+  FS.eval_spec 5 (tr_env []) (tr_e e) = F.VStr [97%N; 98%N] /\
+  teval no_svc [] (EAdd (EStr [97%N]) (enum 1)) = VNull /\ teval no_svc [] (EMul (EStr [97%N]) (EStr [98%N])) = VNull.
+Proof. vm_compute. repeat split; reflexivity. Qed.
 
 (* a knowledge model with the formal parameters (x, x) and body x, invoked as f(1, 2): dv model answers 2 *)
-Lemma dup_params_differ :
-  let sc := [(1%N, VBkm [10%N; 10%N] (EVar 10%N))] in let e := ECall 1%N [ENum 1; ENum 2] in
-  teval no_svc sc e = VNum 1 /\ FS.eval_spec 5 (tr_env sc) (tr_e e) = F.VNum (D.of_Z 2 0).
-Proof. vm_compute. split; reflexivity. Qed.
+Lemma dup_params_agree :
+  let sc := [(1%N, VBkm [10%N; 10%N] (EVar 10%N))] in let e := ECall 1%N [enum 1; enum 2] in
+  shared TFUEL sc e = true /\ teval no_svc sc e = vnum 2 /\ FS.eval_spec 5 (tr_env sc) (tr_e e) = F.VNum (D.of_Z 2 0).
+Proof. vm_compute. repeat split; reflexivity. Qed.
 
-(* a * 0 with a = -3: dv model answers -0; Z has one zero (this is why the conclusion is stated up to zsign) *)
-Lemma negative_zero :
-  let e := EMul (ENum (-3)) (ENum 0) in
-  shared TFUEL [] e = true /\ teval no_svc [] e = VNum 0 /\
-  FS.eval_spec 5 (tr_env []) (tr_e e) = F.VNum (D.mkdec true 0 0) /\ F.VNum (D.mkdec true 0 0) <> tr_v (VNum 0).
-Proof. vm_compute. repeat split; try reflexivity. discriminate. Qed.
+(* a * 0 with a = -3: dv model answers -0, and so do both models *)
+Lemma negative_zero_agrees :
+  let e := EMul (enum (-3)) (enum 0) in
+  shared TFUEL [] e = true /\ teval no_svc [] e = VNum (D.mkdec true 0 0) /\
+  FS.eval_spec 5 (tr_env []) (tr_e e) = F.VNum (D.mkdec true 0 0).
+Proof. vm_compute. repeat split; reflexivity. Qed.
 
-(* a * a + 1 with a = 10^17: 35 digits; dv model answers 1E+34 *)
-Lemma rounding_differs :
-  let e := EAdd (EMul (ENum (10 ^ 17)) (ENum (10 ^ 17))) (ENum 1) in
-  shared TFUEL [] e = false /\ teval no_svc [] e = VNum (10 ^ 34 + 1) /\
-  FS.eval_spec 5 (tr_env []) (tr_e e) = F.VNum (D.mkdec false (10 ^ 33) 1).
+(* a * a + 1 with a = 10^17: 35 digits; dv model answers 1E+34.  A literal of more than 34 digits is rounded half-even
+   when it is read (99999999999999999999999999999999995 is 1E+35) *)
+Lemma rounding_agrees :
+  let e := EAdd (EMul (enum (10 ^ 17)) (enum (10 ^ 17))) (enum 1) in
+  shared TFUEL [] e = true /\ teval no_svc [] e = VNum (D.mkdec false (10 ^ 33) 1) /\
+  FS.eval_spec 5 (tr_env []) (tr_e e) = F.VNum (D.mkdec false (10 ^ 33) 1) /\
+  num_lit 99999999999999999999999999999999995 = D.mkdec false (10 ^ 33) 2.
 Proof. vm_compute. repeat split; reflexivity. Qed.
